@@ -83,6 +83,12 @@ class Ctx:
         if os.path.exists(vfile):
             with open(vfile) as f:
                 names = re.findall(r"^(?:Theorem|Lemma|Example|Corollary)\s+([A-Za-z0-9_']+)", f.read(), re.M)
+        bad = lint_coq()
+        self.obligations.append("lint:no Admitted/admit/Axiom/Parameter/Conjecture/unset checks in coq/theories")
+        if bad:
+            self.broken.append(("lint", "forbidden construct in the Coq development", "\n".join(bad[:10])))
+        else:
+            self.discharged.append("lint:no Admitted/admit/Axiom/Parameter/Conjecture/unset checks in coq/theories")
         cmd = ["timeout", str(timeout), "make", "-C", COQ, "-j", str(min(16, os.cpu_count() or 4)),
                os.path.join("theories", target)]
         self.checker_cmds.append(" ".join(cmd))
@@ -99,6 +105,9 @@ class Ctx:
                 self.assumptions.append("Print Assumptions reported axioms: " + "; ".join(axioms)[:1000])
             else:
                 self.assumptions.append("Print Assumptions: every theorem of %s is closed under the global context" % target)
+            if self.tier == "thorough" and target.startswith("Props/") and not getattr(self, "_coqchk_done", False):
+                self._coqchk_done = True
+                self.coqchk("Delb." + target[:-3].replace("/", "."))
             return True
         m = re.search(r'File "([^"]+)", line (\d+)', out)
         where = "?"
@@ -271,6 +280,56 @@ def shrink(case, what, reductions, failing_whats, rounds=10, width=60):
             break
         case = nxt
     return case
+
+
+_FORBIDDEN = re.compile(
+    r"\b(Admitted|admit|Axiom|Axioms|Parameter|Parameters|Conjecture|Conjectures)\b|Admit Obligations|"
+    r"Unset\s+(Guard Checking|Positivity Checking|Universe Checking)|bypass_check|-type-in-type|-impredicative-set")
+
+
+def lint_coq():
+    """forbidden constructs anywhere in the development (comments are stripped first); Variable/Hypothesis must be
+    inside a Section"""
+    bad = []
+    for root, _, files in os.walk(os.path.join(COQ, "theories")):
+        for fn in files:
+            if not fn.endswith(".v"):
+                continue
+            path = os.path.join(root, fn)
+            with open(path, encoding="utf-8", errors="replace") as f:
+                text = f.read()
+            # strip (nested) comments and string literals
+            out, depth, i, in_str = [], 0, 0, False
+            while i < len(text):
+                if not in_str and text.startswith("(*", i):
+                    depth += 1
+                    i += 2
+                    continue
+                if not in_str and depth and text.startswith("*)", i):
+                    depth -= 1
+                    i += 2
+                    continue
+                if depth == 0:
+                    if text[i] == '"':
+                        in_str = not in_str
+                    elif not in_str:
+                        out.append(text[i])
+                    if text[i] == "\n":
+                        out.append("\n") if in_str else None
+                i += 1
+            code = "".join(out)
+            for m in _FORBIDDEN.finditer(code):
+                bad.append("%s: %s" % (os.path.relpath(path, COQ), m.group(0)))
+            sec = 0
+            for line in code.splitlines():
+                st = line.strip()
+                if re.match(r"(Section|Module Type)\b", st):
+                    sec += 1
+                elif re.match(r"End\b", st) and sec:
+                    sec -= 1
+                elif sec == 0 and re.match(r"(Variable|Variables|Hypothesis|Hypotheses|Context)\b", st):
+                    bad.append("%s: %s outside a Section" % (os.path.relpath(path, COQ), st[:60]))
+    return bad
 
 
 def locate_lemma(path, line):
